@@ -1131,6 +1131,10 @@ class Process(StateMachine, persistence.Savable, metaclass=ProcessStateMachineMe
             # Already paused
             return True
 
+        if self._killing is not None:
+            # Being killed, which takes precedence: there will be nothing left to pause
+            return False
+
         if self._pausing is not None:
             # Already pausing
             return self._pausing
@@ -1215,9 +1219,10 @@ class Process(StateMachine, persistence.Savable, metaclass=ProcessStateMachineMe
         if not self.paused:
             if self._pausing is not None:
                 # Not going to pause after all
+                if self._interrupt_action is self._pausing:
+                    self._set_interrupt_action(None)
                 self._pausing.cancel()
                 self._pausing = None
-                self._set_interrupt_action(None)
             return True
 
         call_with_super_check(self.on_playing)
@@ -1263,6 +1268,7 @@ class Process(StateMachine, persistence.Savable, metaclass=ProcessStateMachineMe
             interrupt_exception = process_states.KillInterruption(msg_text)
             self._set_interrupt_action_from_exception(interrupt_exception)
             self._killing = self._interrupt_action
+            self._pausing = None  # A pending pause has just been superseded (and cancelled)
             self._state.interrupt(interrupt_exception)
             return cast(futures.CancellableAction, self._interrupt_action)
 
@@ -1349,11 +1355,16 @@ class Process(StateMachine, persistence.Savable, metaclass=ProcessStateMachineMe
                 # be an interrupt action ready to be executed, so just check if the cookie matches
                 # that of the exception i.e. if it is the _same_ interruption.  If not cancel and
                 # build the interrupt action below
-                if self._interrupt_action is not None:
-                    if self._interrupt_action.cookie is not exception:
-                        self._set_interrupt_action_from_exception(exception)
-                else:
+                if self._interrupt_action is None:
                     self._set_interrupt_action_from_exception(exception)
+                elif self._interrupt_action.cookie is not exception:
+                    # This is not the interruption of the pending action: it either belongs to a request that has been
+                    # superseded since, which must not undo the pending one, or it was raised by the state itself in
+                    # which case only a kill outranks what is pending
+                    if isinstance(exception, process_states.KillInterruption) and not isinstance(
+                        self._interrupt_action.cookie, process_states.KillInterruption
+                    ):
+                        self._set_interrupt_action_from_exception(exception)
 
             except KeyboardInterrupt:
                 raise
